@@ -11,14 +11,13 @@ from props.c07 import S, B, pyval, cookie, wval
 
 ID = "C25"
 LEAN_TARGETS = ["TornadoModel.C25.Props"]
-THEOREMS_FULL = [
+THEOREMS = [
     "TornadoModel.C25.unquote_quote",
     "TornadoModel.C25.set_then_parse",
     "TornadoModel.C25.attrs_exact",
     "TornadoModel.C25.last_wins",
     "TornadoModel.C25.jar_names_unique",
 ]
-THEOREMS = ["TornadoModel.C25.stub"]
 TRUSTED = [
     "CPython 3.12 http.cookies (_LegalChars, _Translator, _quote, Morsel.set/__setitem__/OutputString, SimpleCookie.__setitem__) as written in C25/Model.lean — diffed on every run",
     "str.split/strip/lower, re character classes, str.decode('utf-8') (Lean core `String.fromUTF8?`)",
@@ -37,7 +36,9 @@ EXHAUSTIVE = {"quick": True, "thorough": True}
 CLAUSES = {
     "either that call raises or the response is sent with a Set-Cookie header that parse_cookie reads back as exactly that name and value":
         "set_then_parse + unquote_quote",
-    "carrying exactly the requested attributes, with no extra attributes or cookies": "attrs_exact + jar_names_unique",
+    "carrying exactly the requested attributes, with no extra attributes or cookies":
+        "attrs_exact (for every Morsel whose text attributes hold no ';') + jar_names_unique; "
+        "tie only: that every accepted call builds such a Morsel (accepted_morsel_clean_goal, checked on every emitted cookie)",
     "Setting the same name twice in one response emits only the last setting": "last_wins + jar_names_unique",
     "set_signed_cookie / clear_cookie": "tie: both delegate to set_cookie; the harness feeds the model the signed value / expiry they computed",
 }
